@@ -7,6 +7,11 @@
                  present, legacy, ents     = content of the slot k after the call, read back by the driver
                                              with pickle alone (ents = list of [id, lg, ch, co]),
                  obs                       = dense matrix (1/8 units),
+                 op "Rescale" / "Scribble" = (round 9) the driver edited line i's stored logits in place (fl = 0: line.logits *= f,
+                                             fl = 1: line.logits.data *= f) / modified in place every array earlier Dense
+                                             calls of that line had returned,
+                 pv                        = (round 9, informative) how the file path was spelled: absolute, bare name in the
+                                             working directory, relative with a directory part, "./name",
                  tok                       = op "Observe" (k = "decode" | "alto"): digest of the transcription the page decoder
                                              produced for line i / of the text of the ALTO export of layout L,
                  lse, shift                = get_full_logprobs: max |logsumexp(row)| and max spread of
@@ -41,6 +46,8 @@ TNext == /\ UNCHANGED tid
                   \/ /\ ev.op = "Dense" /\ ev.status = "ok" /\ Dense(ev.L, ev.i, ev.fl)
                      /\ obs' = ev.obs
                      /\ ev.lse <= Tol /\ ev.shift <= Tol               \* row-normalised log-probabilities of the same logits
+                  \/ /\ ev.op = "Rescale" /\ ev.status = "ok" /\ Rescale(ev.L, ev.i)
+                  \/ /\ ev.op = "Scribble" /\ ev.status = "ok" /\ Scribble(ev.L, ev.i)
                   \/ /\ ev.op = "Observe" /\ ev.status = "ok" /\ Observe(ev.k, ev.L, ev.i, ev.tok)
                /\ lay' = LayOf(ev)                                      \* both layouts as observed after the call
 
